@@ -67,73 +67,100 @@ def run_x(ob, shard_idx: int, twin: bool, excl: list[str]) -> dict:
         set_debug(True)
 
     fn = ob.fn
-    sig = inspect.signature(fn, eval_str=True)
-    names = list(sig.parameters)
-    label, extra = ob.shard_list()[shard_idx]
+    full_sig = inspect.signature(fn, eval_str=True)
+    shard = ob.shard_list()[shard_idx]
+    label, extra = shard[0], shard[1]
+    cases = shard[2] if len(shard) > 2 and shard[2] else [{}]
     regions = _regions(ob, excl)
     fname = inspect.getsourcefile(fn) or "?"
     line = fn.__code__.co_firstlineno
-
-    def pre_eval(ns):
-        kw = {k: ns[k] for k in names}
-        if ob.pre is not None and not ob.pre(**kw):
-            return False
-        if extra is not None and not extra(**kw):
-            return False
-        for r in regions:
-            if r(kw):
-                return False
-        return True
-
-    def post_eval(ns):
-        if twin:
-            return False
-        return bool(ns["__return__"])
-
-    captured = {}
-
-    def describe(args, return_val, reprs):
-        captured["args"] = {k: OB.to_jsonable(v) for k, v in args.arguments.items()}
-        captured["ret"] = OB.to_jsonable(return_val)
-        return (f"{fn.__name__}({captured['args']})", repr(return_val))
-
-    conditions = Conditions(
-        fn=fn,
-        src_fn=fn,
-        pre=[ConditionExpr(PRECONDITION, pre_eval, fname, line, "pre")],
-        post=[ConditionExpr(POSTCONDITION, post_eval, fname, line, "post")],
-        raises=frozenset(),
-        sig=sig,
-        mutable_args=None,
-        fn_syntax_messages=[],
-        counterexample_description_maker=describe,
-    )
     import collections
 
-    options = DEFAULT_OPTIONS.overlay(
-        per_condition_timeout=float(ob.timeout),
-        per_path_timeout=float(ob.path_timeout),
-        stats=collections.Counter(),
-    )
     t0 = time.perf_counter()
     c0 = time.process_time()
-    options.deadline = time.process_time() + options.per_condition_timeout
-    with condition_parser(options.analysis_kind):
-        analysis = analyze_calltree(options, conditions)
+    deadline = time.process_time() + float(ob.timeout)
+    total_paths = total_confirmed = 0
+    verdict = "confirmed"
+    message = tb = ""
+    cex = None
+    cases_done = 0
+    for fixed in cases:
+        # `fixed` = selector arguments bound concretely by the driver; the rest stays symbolic for the solver
+        names = [n for n in full_sig.parameters if n not in fixed]
+        sig = full_sig.replace(parameters=[full_sig.parameters[n] for n in names])
+
+        def call(*a, __fixed=fixed, __names=names, **kw):
+            kw.update(zip(__names, a))
+            return fn(**__fixed, **kw)
+
+        def pre_eval(ns, __fixed=fixed, __names=names):
+            kw = dict(__fixed)
+            kw.update({k: ns[k] for k in __names})
+            if extra is not None and not extra(**kw):
+                return False
+            if ob.pre is not None and not ob.pre(**kw):
+                return False
+            for r in regions:
+                if r(kw):
+                    return False
+            return True
+
+        def post_eval(ns):
+            if twin:
+                return False
+            return bool(ns["__return__"])
+
+        captured = {}
+
+        def describe(args, return_val, reprs, __fixed=fixed):
+            captured["args"] = {**{k: OB.to_jsonable(v) for k, v in __fixed.items()}, **{k: OB.to_jsonable(v) for k, v in args.arguments.items()}}
+            return (f"{fn.__name__}({captured['args']})", repr(return_val))
+
+        call.__name__ = fn.__name__
+        conditions = Conditions(
+            fn=call, src_fn=fn,
+            pre=[ConditionExpr(PRECONDITION, pre_eval, fname, line, "pre")],
+            post=[ConditionExpr(POSTCONDITION, post_eval, fname, line, "post")],
+            raises=frozenset(), sig=sig, mutable_args=None, fn_syntax_messages=[],
+            counterexample_description_maker=describe,
+        )
+        remaining = deadline - time.process_time()
+        if remaining <= 0:
+            verdict, message = "unknown", f"shard budget exhausted after {cases_done}/{len(cases)} cases"
+            break
+        options = DEFAULT_OPTIONS.overlay(per_condition_timeout=float(remaining), per_path_timeout=float(ob.path_timeout), stats=collections.Counter())
+        options.deadline = time.process_time() + remaining
+        with condition_parser(options.analysis_kind):
+            analysis = analyze_calltree(options, conditions)
+        total_paths += int(options.stats.get("num_paths", 0))
+        total_confirmed += int(analysis.num_confirmed_paths)
+        status = analysis.verification_status
+        v = {VerificationStatus.CONFIRMED: "confirmed", VerificationStatus.UNKNOWN: "unknown", VerificationStatus.REFUTED: "refuted"}[status]
+        pre_unsat = False
+        for m in analysis.messages:
+            if m.state == MessageType.PRE_UNSAT:
+                pre_unsat = True
+            message = m.message
+            tb = m.traceback or ""
+        cases_done += 1
+        if pre_unsat:
+            if len(cases) == 1:
+                verdict = "pre_unsat"
+                break
+            continue  # a case outside the precondition contributes nothing
+        if v == "refuted":
+            if "args" in captured:
+                verdict, cex = "refuted", captured["args"]
+            else:
+                verdict, message = "error", "refuted without counterexample: " + message
+            break
+        if v == "unknown":
+            verdict = "unknown"
+            message = message or f"case {fixed} not confirmed within budget"
+            break
     wall = time.perf_counter() - t0
-    status = analysis.verification_status
-    msgs = analysis.messages
-    verdict = {VerificationStatus.CONFIRMED: "confirmed", VerificationStatus.UNKNOWN: "unknown", VerificationStatus.REFUTED: "refuted"}[status]
-    message = ""
-    tb = ""
-    for m in msgs:
-        if m.state == MessageType.PRE_UNSAT:
-            verdict = "pre_unsat"
-        message = m.message
-        tb = m.traceback or ""
-    if verdict == "refuted" and "args" not in captured:
-        verdict = "error"
-        message = "refuted without counterexample: " + message
+    if verdict == "confirmed" and total_confirmed == 0:
+        verdict, message = "pre_unsat", "no case of this shard satisfies the precondition"
     return {
         "engine": "X",
         "obligation": ob.name,
@@ -142,9 +169,10 @@ def run_x(ob, shard_idx: int, twin: bool, excl: list[str]) -> dict:
         "verdict": verdict,
         "message": message[:2000],
         "traceback": tb[-3000:],
-        "counterexample": captured.get("args"),
-        "paths": int(options.stats.get("num_paths", 0)),
-        "confirmed_paths": int(analysis.num_confirmed_paths),
+        "counterexample": cex,
+        "paths": total_paths,
+        "confirmed_paths": total_confirmed,
+        "cases": cases_done,
         "solver_checks": stats["checks"],
         "solver_seconds": round(stats["seconds"], 3),
         "wall_s": round(wall, 2),
